@@ -4,6 +4,7 @@ import (
 	"go/ast"
 	"go/token"
 	"go/types"
+	"strings"
 
 	"golang.org/x/tools/go/ssa"
 	"verif/checker/internal/core"
@@ -320,6 +321,79 @@ func runC05(c *core.Ctx) {
 			}, nil)
 			c.Check(bad == nil, "R9", "context-close", p.Pos(fn.Pos()), "closes the channel synchronously with the caller's argument", "HandlerContext.Close can return without having closed the channel itself with its own argument (asynchronous, deferred to another goroutine, or conditional: the handler continues on a channel it believes closed and writes still succeed)", p.PathString(path, bad)...)
 		}
+	}
+
+	// ---- R10: the library's own pipeline handlers pass the lifecycle events on
+	c.Rule("R10", "built-in handlers forward active / inactive to the next handler on every path, once, inactive with the exception they were given", 4)
+	root := p.TPkg("")
+	actT := lookupNamedT(root, "ActiveContext")
+	inactT := lookupNamedT(root, "InactiveContext")
+	for _, fn := range p.Funcs {
+		if fn.Parent() != nil || fn.Signature.Recv() == nil || len(fn.Params) < 2 {
+			continue
+		}
+		var ctxT types.Type
+		switch fn.Name() {
+		case "HandleActive":
+			ctxT = actT
+		case "HandleInactive":
+			ctxT = inactT
+		default:
+			continue
+		}
+		if ctxT == nil || !types.Identical(fn.Params[1].Type(), ctxT) {
+			continue
+		}
+		// struct-typed handlers only: func adapters hand the event to user code
+		rt := fn.Signature.Recv().Type()
+		if pt, ok := rt.(*types.Pointer); ok {
+			rt = pt.Elem()
+		}
+		if _, isStruct := rt.Underlying().(*types.Struct); !isStruct {
+			continue
+		}
+		c.Instance("R10")
+		c.FuncsSeen[p.QName(fn)] = true
+		ctxPrm := ssa.Value(fn.Params[1])
+		isFwd := func(x ssa.Instruction) bool {
+			cc := core.CallCommon(x)
+			if cc == nil || !cc.IsInvoke() || cc.Method.Name() != fn.Name() || core.Unwrap(cc.Value) != ctxPrm {
+				return false
+			}
+			if _, isCall := x.(*ssa.Call); !isCall {
+				return false
+			}
+			if fn.Name() == "HandleInactive" {
+				return len(cc.Args) == 1 && len(fn.Params) == 3 && core.Unwrap(cc.Args[0]) == ssa.Value(fn.Params[2])
+			}
+			return true
+		}
+		name := "forwards/" + p.PublicName(fn)
+		miss, path := core.Search(nil, fn.Blocks[0], func(x ssa.Instruction) core.Action {
+			switch {
+			case isFwd(x):
+				return core.Barrier
+			case core.IsNormalReturn(x):
+				return core.Target
+			}
+			return core.Continue
+		}, nil)
+		c.Check(miss == nil, "R10", name+"/every-path", p.Pos(fn.Pos()), "the event reaches the next handler on every path", "a built-in handler can return without passing the "+strings.TrimPrefix(fn.Name(), "Handle")+" event on (with the exception it was given): the handlers behind it never see the channel's lifecycle event", p.PathString(path, miss)...)
+		twice := false
+		core.AllInstrs(fn, func(x ssa.Instruction) {
+			if !isFwd(x) {
+				return
+			}
+			if t, _ := core.Search(x, nil, func(y ssa.Instruction) core.Action {
+				if isFwd(y) {
+					return core.Target
+				}
+				return core.Continue
+			}, nil); t != nil {
+				twice = true
+			}
+		})
+		c.Check(!twice, "R10", name+"/once", p.Pos(fn.Pos()), "forwarded at most once per call", "a built-in handler can pass the event on twice")
 	}
 }
 
